@@ -28,7 +28,7 @@ def answerCore (fs : List (String × String)) : E String := do
       if (field? fs "dump").isSome then
         return "dump model=" ++ String.intercalate ";" (M.toList.map fun r => String.intercalate "," (r.toList.map showFix))
           ++ " impl=" ++ String.intercalate ";" (Mi.toList.map fun r => String.intercalate "," (r.toList.map showFix))
-      if !c.ok then return s!"res=BROKEN:matrix {describe c} approx={N * N}"
+      if !c.ok then return s!"res=FAIL:matrix-differs-from-model {describe c} approx={N * N}"
       if nnzI ≠ nnz then return s!"res=BROKEN:sparsity impl={nnzI} model={nnz}"
       return s!"res=ok {describe c} approx={N * N} exact=1"
     else if op == "embed" then
@@ -51,29 +51,29 @@ def answerCore (fs : List (String × String)) : E String := do
       if threw != "-" then return s!"res=FAIL:threw what={threw}"
       let lhs ← needMat fs "lhs" N N
       let c := cmpArr tolM lhs M tscale
-      if !c.ok then return s!"res=BROKEN:solver-input {describe c} approx={N * N}"
       let hook := s!"{← need fs "calls"},{← need fs "skip"},{← need fs "smallest"},{← need fs "gen"},{← need fs "td"}"
-      if hook != s!"1,1,1,0,{d}" then return s!"res=BROKEN:solver-call calls,skip,smallest,gen,td={hook}"
       let Y ← needMat fs "Y" N d
       let vecs ← needMat fs "vecs" N d
-      if (cmpArr 0 Y vecs).maxdev.m ≠ 0 then return "res=BROKEN:embedding-is-not-the-solver-output"
-      -- the trivial eigenpair (1, s) of the model matrix, checked on the observed matrix
+      -- the property's oracle: the returned Y certified against the MODEL's matrix M (computed from the raw inputs)
       let s : Fix ← if method == "hlle" then pure 0 else needFix fs "shift"
-      let scaleM := maxRowSum lhs
+      let scaleM := fmax (maxRowSum M) tscale
       let mut triv : Fix := 0
       for i in [0:N] do
         let mut r : Fix := 0
         for j in [0:N] do
-          r := r + (lhs[i]!)[j]!
+          r := r + (M[i]!)[j]!
         triv := fmax triv (fabs (r - s))
-      if !(triv ≤ tolPow 26 * scaleM) then return s!"res=BROKEN:constant-eigenvector dev={log2Str triv scaleM}"
-      -- is the trivial eigenvalue separated from the returned ones?  (Rayleigh quotients are computed inside)
+      if !(triv ≤ tolPow 26 * scaleM) then return s!"res=BROKEN:model-constant-eigenvector dev={log2Str triv scaleM}"
       let Yt := transposeArr Y N d
-      let AG := mulArr Yt (mulArr lhs Y N N d) d N d
+      let AG := mulArr Yt (mulArr M Y N N d) d N d
       let muMin := (List.range d).foldl (fun acc c => if (AG[c]!)[c]! < acc then (AG[c]!)[c]! else acc) ((AG[0]!)[0]!)
       let separated := decide (tolPow 10 * scaleM < muMin - s)
-      let co := certBottom N d lhs none Y true separated scaleM tolY tolY tolC
+      let co := certBottom N d M none Y true separated scaleM tolY tolY tolC
       if !co.ok then return s!"res=FAIL:certificate:{co.why} {certLine co} {describe c}"
+      -- correspondence: what was handed to the solver, how it was called, what was returned
+      if !c.ok then return s!"res=BROKEN:solver-input {describe c} approx={N * N}"
+      if hook != s!"1,1,1,0,{d}" then return s!"res=BROKEN:solver-call calls,skip,smallest,gen,td={hook}"
+      if (cmpArr 0 Y vecs).maxdev.m ≠ 0 then return "res=BROKEN:embedding-is-not-the-solver-output"
       return s!"res=ok {describe c} {certLine co} sep={separated} approx={N * N + N * d}"
     else throw s!"unknown op {op}"
   else throw "N=0"
